@@ -78,6 +78,38 @@ def monitor_ext(case, rec):
     return viol
 
 
+def monitor_extdel(case, rec):
+    """external-uncache cases (dagcase.gen_extdel_case): another actor removed the entry of task w during the run,
+    before w was submitted ('A') or after w had been loaded ('B'). Returns ({property: [violations]}, what happened).
+      * C12 / C08: after the run, no entry may be reported by is_cached (or make cached_tasks fail) that does not load;
+      * everything the ordinary monitors say about a run whose cache did not hold w when w's turn came ('A': w is
+        submitted with use_cache=0, executed, returned with its own value and cached again - C01/C03/C10) or that held it
+        until it was loaded ('B': w is loaded, its dependents read the loaded value; afterwards the entry is gone)."""
+    w = int(case['extdel'])
+    what = (rec.get('extdel') or 'none x').split(' ')
+    mode = what[1] if len(what) > 1 and what[1] in 'AB' else None
+    case2, rec2 = case, rec
+    if mode == 'A':
+        case2 = dict(case, pre={t: v for t, v in case['pre'].items() if int(t) != w})
+    elif mode == 'B' and w not in rec['store'] and not any(e.startswith('%d:' % w) for e in rec.get('store_errors', [])):
+        rec2 = dict(rec, store={**rec['store'], w: case['pre'][w]})     # gone, as the other actor left it
+    viol, _ = monitor(case2, rec2)
+    viol['C12'], viol['C08'] = [], []
+    how = {'A': f'before task {w} was submitted', 'B': f'after task {w} had been loaded', None: 'never'}[mode]
+    for err in rec.get('store_errors', []):
+        t, cls = err.split(': ')
+        msg = (f'after the call the Lab reports task {t} as cached (is_cached) but the entry does not load ({cls}); another actor '
+               f'had removed the entry of task {w} during the call, {how}')
+        viol['C12'].append(msg + ': an entry that is reported as cached but cannot be loaded was left behind')
+        viol['C08'].append(msg)
+    if rec.get('listing_error'):
+        msg = (f'after the call cached_tasks raises {rec["listing_error"]}; another actor had removed the entry of task {w} '
+               f'during the call, {how}')
+        viol['C12'].append(msg + ': an entry that cannot be loaded was left behind')
+        viol['C08'].append(msg)
+    return viol, mode
+
+
 def monitor_poison(case, rec):
     """torn-entry cases: a task that is cached (however badly) is loaded, not executed"""
     viol = []
